@@ -320,6 +320,7 @@ func genC07(rt *rapid.T, thorough bool) c07Case {
 		cfg := model.DefaultCfg(mode)
 		cfg.MaxDepth = 2
 		cfg.PCatch, cfg.PVary, cfg.PAbsent, cfg.PJunk, cfg.PTestSat, cfg.POpts, cfg.PPost = 0.3, 0.4, 0.15, 0.12, 0.6, 0.15, 0
+		cfg.PPre = 0.1 // Preprocess wrappers: their failure issues are built by the library outside any test
 		failingPost := rapid.IntRange(0, 4).Draw(rt, "failingpost") == 0
 		if failingPost {
 			// a call whose only possible issue is the error one PostTransform returns (no tests, nothing required, valid
@@ -376,6 +377,11 @@ func genC07(rt *rapid.T, thorough bool) c07Case {
 		if cs.Root.Kind == model.KStruct && !failingPost && len(c.Calls) < ncalls && rapid.IntRange(0, 2).Draw(rt, "reuse") == 0 {
 			cfg2 := cfg
 			cfg2.Mode = rapid.SampledFrom([]string{"parse", "validate"}).Draw(rt, "mode2")
+			cs.Root.Walk(func(n *model.Node) {
+				if n.Kind == model.KPre {
+					cfg2.Mode = mode // a Preprocess function is written for one mode (input type F vs pointer to the value)
+				}
+			})
 			g := model.NewGen(rt, cfg2)
 			twin := model.RoundTrip(cs)
 			twin.Exec.Mode = cfg2.Mode
